@@ -35,8 +35,25 @@ def gen_spec(rng, max_tasks=10, allow_empty=True):
         if k > 0 and rng.random() > 0.25 * ncomp_bias + 0.1:
             for _ in range(rng.choice([1, 1, 2, 3])):
                 src = rng.randrange(max(0, k - 4), k) if rng.random() < 0.7 else rng.randrange(k)
-                ins.append((src, rng.randrange(tasks[src]["nout"])))
-        tasks.append({"nout": nout, "ins": ins, "gpu": rng.random() < 0.2, "none": []})
+                ins.append((src, rng.randrange(min(tasks[src]["nout"], 4)) if rng.random() < 0.8 else rng.randrange(tasks[src]["nout"])))
+        style = rng.random()
+        if style < 0.5:
+            names = [f"o{o}" for o in range(nout)]
+        elif style < 0.75:
+            names = ["mean", "std", "count", "max"][:nout]          # declared order is not the sorted order
+        else:
+            if rng.random() < 0.25:
+                nout = rng.choice([11, 12])
+            names = [str(o) for o in range(nout)]                    # "10" sorts before "2"
+        if rng.random() < 0.5:
+            rng.shuffle(names)
+        static_kw = {f"k{i}": f"S{k}.{i}" for i in range(1, 2 * len(ins), 2) if rng.random() < 0.4}
+        if rng.random() < 0.3:
+            static_kw[f"extra{k}"] = k
+        nps = (len(ins) + 1) // 2
+        static_ps = {str(p): f"P{k}.{p}" for p in range(nps + 2) if rng.random() < 0.3}
+        tasks.append({"nout": nout, "ins": ins, "gpu": rng.random() < 0.2, "none": [], "onames": names,
+                      "static_kw": static_kw, "static_ps": static_ps})
     hosts = rng.choice([1, 1, 2, 2, 3, 4])
     workers = []
     for h in range(hosts):
@@ -58,6 +75,16 @@ def oname(o):
     return f"o{o}"
 
 
+def onames_sorted(t):
+    """output names of a task spec in key-sorted order: index i of the model = i-th name here"""
+    return sorted(t.get("onames") or [oname(o) for o in range(t["nout"])])
+
+
+def dsid(spec, k, o):
+    from cascade.low.core import DatasetId
+    return DatasetId(tname(k), onames_sorted(spec["tasks"][k])[o])
+
+
 def hname(h):
     return f"h{h}"
 
@@ -66,15 +93,17 @@ def build_job(spec, funcs=None):
     from cascade.low.core import DatasetId, Environment, JobInstance, Task2TaskEdge, TaskDefinition, TaskInstance, Worker, WorkerId
     tasks, edges = {}, []
     for k, t in enumerate(spec["tasks"]):
+        declared = t.get("onames") or [oname(o) for o in range(t["nout"])]
         d = TaskDefinition(entrypoint="" if funcs else "verif.none", func=TaskDefinition.func_enc(funcs[k]) if funcs else None,
-                           environment=[], input_schema={}, output_schema={oname(o): "Any" for o in range(t["nout"])}, needs_gpu=t["gpu"])
-        tasks[tname(k)] = TaskInstance(definition=d, static_input_kw={}, static_input_ps={})
+                           environment=[], input_schema={}, output_schema={n: "Any" for n in declared}, needs_gpu=t["gpu"])
+        tasks[tname(k)] = TaskInstance(definition=d, static_input_kw=dict(t.get("static_kw", {})) if funcs else {},
+                                       static_input_ps=dict(t.get("static_ps", {})) if funcs else {})
         for i, (src, o) in enumerate(t["ins"]):
             if i % 2 == 0:
-                edges.append(Task2TaskEdge(source=DatasetId(tname(src), oname(o)), sink_task=tname(k), sink_input_kw=None, sink_input_ps=i // 2))
+                edges.append(Task2TaskEdge(source=dsid(spec, src, o), sink_task=tname(k), sink_input_kw=None, sink_input_ps=i // 2))
             else:
-                edges.append(Task2TaskEdge(source=DatasetId(tname(src), oname(o)), sink_task=tname(k), sink_input_kw=f"k{i}", sink_input_ps=None))
-    job = JobInstance(tasks=tasks, edges=edges, ext_outputs=[DatasetId(tname(k), oname(o)) for k, o in spec["ext"]])
+                edges.append(Task2TaskEdge(source=dsid(spec, src, o), sink_task=tname(k), sink_input_kw=f"k{i}", sink_input_ps=None))
+    job = JobInstance(tasks=tasks, edges=edges, ext_outputs=[dsid(spec, k, o) for k, o in spec["ext"]])
     wids = []
     per_host = {}
     for w in spec["workers"]:
@@ -101,9 +130,10 @@ class FakeCluster:
         self.nout = [t["nout"] for t in spec["tasks"]]
         keys = {}
         self.key = {}
+        self.sorted_names = [onames_sorted(t) for t in spec["tasks"]]
         for k, t in enumerate(spec["tasks"]):
             for o in range(t["nout"]):
-                self.key[(k, o)] = keys.setdefault(ds2shmid(DatasetId(tname(k), oname(o))), len(keys))
+                self.key[(k, o)] = keys.setdefault(ds2shmid(dsid(spec, k, o)), len(keys))
         self.store, self.wq = {}, {}
         self.xfers, self.fetches, self.purges, self.pool = [], [], [], []
         self.rounds = []          # finished rounds
@@ -123,10 +153,15 @@ class FakeCluster:
         self.ext = set(map(tuple, spec["ext"]))
         self.none_ds = {(k, o) for k, t in enumerate(spec["tasks"]) for o in t.get("none", [])}
         self.steps = 0
+        self.progress = {}
 
     # --- id mapping
     def ds_id(self, ds):
-        return (int(ds.task[1:]), int(ds.output[1:]))
+        k = int(ds.task[1:])
+        return (k, self.sorted_names[k].index(ds.output))
+
+    def ds_obj(self, d):
+        return dsid(self.spec, d[0], d[1])
 
     def h_id(self, h):
         return int(h[1:])
@@ -248,7 +283,7 @@ class FakeCluster:
         for w, t in self.wq.items():
             h = self.whost[w]
             if all((h, self.key[d]) in self.store for d in self.ins[t]):
-                st.append(("finish", w))
+                st.append(("publish", w))
         st += [("xfer", i) for i in range(len(self.xfers))]
         st += [("fetch", i) for i in range(len(self.fetches))]
         st += [("purge", i) for i in range(len(self.purges))]
@@ -259,24 +294,30 @@ class FakeCluster:
         from cascade.low.core import DatasetId
         self.steps += 1
         kind = st[0]
-        if kind == "finish":
+        if kind == "publish":
+            # the task held by w yields and publishes its next output (a generator task takes nout steps;
+            # other cluster steps and event deliveries interleave between them)
             w = st[1]
-            t = self.wq.pop(w)
+            t = self.wq[w]
             h = self.whost[w]
-            for d in self.ins[t]:
-                if self.store.get((h, self.key[d])) != d:
-                    self.problem("task-read-wrong-bytes", f"task {t} read {self.store.get((h, self.key[d]))} under the key of {d}")
-            if self.executor:
-                self.executor(self, w, t, h)
-            for o in range(self.nout[t]):
-                d = (t, o)
-                if (h, self.key[d]) in self.store:
-                    self.problem("shm-key-collision", f"output {d} of task {t}: key already used by {self.store[(h, self.key[d])]}")
-                self.store[(h, self.key[d])] = d
-                self.published_truth.add(d)
-                self.pool.append(DatasetPublished(origin=self.wids[w], ds=DatasetId(tname(t), oname(o)), transmit_idx=None))
-            self.finished.add(t)
-            env.append(("finish", w))
+            i = self.progress.get(t, 0)
+            if i == 0:
+                for d in self.ins[t]:
+                    if self.store.get((h, self.key[d])) != d:
+                        self.problem("task-read-wrong-bytes", f"task {t} read {self.store.get((h, self.key[d]))} under the key of {d}")
+                if self.executor:
+                    self.executor(self, w, t, h)
+            d = (t, i)
+            if (h, self.key[d]) in self.store:
+                self.problem("shm-key-collision", f"output {d} of task {t}: key already used by {self.store[(h, self.key[d])]}")
+            self.store[(h, self.key[d])] = d
+            self.published_truth.add(d)
+            self.pool.append(DatasetPublished(origin=self.wids[w], ds=self.ds_obj(d), transmit_idx=None))
+            self.progress[t] = i + 1
+            if i + 1 == self.nout[t]:
+                self.wq.pop(w)
+                self.finished.add(t)
+            env.append(("publish", w, i))
         elif kind == "xfer":
             d, src, tgt = x = self.xfers.pop(st[1])
             if self.store.get((src, self.key[d])) is None:
@@ -286,7 +327,7 @@ class FakeCluster:
                 self.store[(tgt, self.key[d])] = d
                 if self.executor:
                     self.values[(tgt, self.key[d])] = self.values.get((src, self.key[d]))
-            self.pool.append(DatasetPublished(origin=hname(tgt), ds=DatasetId(tname(d[0]), oname(d[1])), transmit_idx=self.steps))
+            self.pool.append(DatasetPublished(origin=hname(tgt), ds=self.ds_obj(d), transmit_idx=self.steps))
             env.append(("xfer", x))
         elif kind == "fetch":
             d, src = x = self.fetches.pop(st[1])
@@ -296,7 +337,7 @@ class FakeCluster:
                 raise Deadlock("fetch failure")
             import cloudpickle
             val = self.values.get((src, self.key[d])) if self.executor else (None if got in self.none_ds else ("VAL", got))
-            hdr = DatasetTransmitPayloadHeader(confirm_address="x", confirm_idx=0, ds=DatasetId(tname(d[0]), oname(d[1])), deser_fun="cloudpickle.loads")
+            hdr = DatasetTransmitPayloadHeader(confirm_address="x", confirm_idx=0, ds=self.ds_obj(d), deser_fun="cloudpickle.loads")
             self.pool.append(DatasetTransmitPayload(header=hdr, value=cloudpickle.dumps(val)))
             env.append(("fetch", x))
         elif kind == "purge":
@@ -424,8 +465,8 @@ def c_label(l):
         if e[0] == "xf":
             return f"LDeliver (EXfer {cN(e[1])} {c_ds(e[2])})"
         return f"LDeliver (EPay {c_ds(e[1])} {copt(e[2], c_ds)})"
-    if k == "finish":
-        return f"LFinish {cN(l[1])}"
+    if k == "publish":
+        return f"LPublish {cN(l[1])} {cN(l[2])}"
     if k == "xfer":
         return f"LXfer ({c_ds(l[1][0])}, {cN(l[1][1])}, {cN(l[1][2])})"
     if k == "fetch":
